@@ -21,6 +21,12 @@ RULE = (
 RULE += (
     ' Added after seeded round 9: filters that read a converted position, a radius scaled by meta[\'BoxSize\'] and N * meta[\'ParticleMassHMsun\'] (expected rows = the same function on the unfiltered load).'
 )
+RULE += (
+    ' Added after seeded round 11: a load that the loader legitimately REJECTS or that FAILS part-way (filter_func raising KeyError on the first superslab / ZeroDivisionError on a middle or the last one / '
+    'returning a mask of the wrong length, an unknown field name, a non-existent later superslab in the file list, a missing cleaning or particle file of a later superslab) on catalogue X -- or on Y itself -- '
+    'followed in the same process by a valid (unfiltered / masked, directory / reversed list / single later file) load of a DIFFERENT catalogue Y with the SAME file names in another directory; '
+    'Y must equal its own unfiltered load taken before the failure (masked), its ground-truth ids / N per superslab, and its own particle slices.'
+)
 ASSUMPTIONS = [
     'the loader calls filter_func once per superslab in file order (observed and asserted by the recording filter)',
     'index columns npstart/npout are compared through the particle slices they address',
@@ -452,6 +458,186 @@ def _big_superslab(run, rng, H, confs):
         shutil.rmtree(truth['root'], ignore_errors=True)
 
 
+# ---------------------------------------------------------------------------------------------------------------------------
+# round 11: what a FAILED or REJECTED load leaves behind must not reach a later valid load
+
+
+class _Hidden:
+    """Temporarily take one file of a generated tree away (a truncated copy / an interrupted transfer), restore on exit."""
+
+    def __init__(self, fn):
+        self.fn = fn
+
+    def __enter__(self):
+        os.rename(self.fn, self.fn + '.hidden')
+
+    def __exit__(self, *a):
+        os.rename(self.fn + '.hidden', self.fn)
+
+
+def _find(root, name):
+    for d, _, files in os.walk(root):
+        if name in files:
+            return os.path.join(d, name)
+    return None
+
+
+FAIL_KINDS = ('filter-keyerror-first', 'filter-zerodivision-middle', 'unknown-field', 'nonexistent-later-file-in-list', 'missing-cleaning-file-later-slab', 'filter-raises-last',
+              'missing-particle-file-later-slab', 'filter-mask-wrong-length')
+
+
+def failing_load(run, kind, T):
+    """One call on tree T that the unchanged loader rejects / that fails part-way.  Returns the exception (or None if, unexpectedly, none)."""
+    inds = T['slab_inds']
+    fns = list(T['halo_fns'])
+    n = len(inds)
+    calls = [0]
+
+    def raising_filter(at, exc):
+        def f(h):
+            k = calls[0]
+            calls[0] += 1
+            if k == at:
+                if exc == 'key':
+                    return np.asarray(h['x_L2com'])[:, 0] > 0  # a column that was not asked for: KeyError
+                return np.ones(len(h), bool) & (1 // (k - at) > 0)  # ZeroDivisionError
+            return np.arange(len(h)) % 2 == 0
+
+        return f
+
+    if kind == 'filter-keyerror-first':
+        _, err = catoracle.load(T['path'], fields=['id', 'N'], cleaned=False, subsamples=False, filter_func=raising_filter(0, 'key'))
+    elif kind == 'filter-zerodivision-middle':
+        _, err = catoracle.load(T['path'], fields=['id', 'N', 'x_com'], cleaned=True, subsamples=dict(A=True, pid=True), filter_func=raising_filter(n // 2, 'zero'))
+    elif kind == 'filter-raises-last':
+        _, err = catoracle.load(list(reversed(fns)), fields='DEFAULT_FIELDS', cleaned=False, subsamples=False, filter_func=raising_filter(n - 1, 'zero'))
+    elif kind == 'unknown-field':
+        _, err = catoracle.load(T['path'], fields=['id', 'no_such_field_xyz'], cleaned=False, subsamples=False)
+    elif kind == 'nonexistent-later-file-in-list':
+        ghost = os.path.join(os.path.dirname(fns[0]), f'halo_info_{max(inds) + 3:03d}.asdf')
+        _, err = catoracle.load(fns + [ghost], fields=['id', 'N'], cleaned=False, subsamples=False)
+    elif kind == 'missing-cleaning-file-later-slab':
+        fn = _find(T['root'], f'cleaned_halo_info_{inds[-1]:03d}.asdf')
+        with _Hidden(fn):
+            _, err = catoracle.load(T['path'], fields=['id', 'N'], cleaned=True, subsamples=False)
+    elif kind == 'missing-particle-file-later-slab':
+        fn = _find(T['path'], f'halo_rv_A_{inds[-1]:03d}.asdf')
+        with _Hidden(fn):
+            _, err = catoracle.load(T['path'], fields=['id', 'N'], cleaned=False, subsamples=dict(A=True, pos=True))
+    elif kind == 'filter-mask-wrong-length':
+        _, err = catoracle.load(T['path'], fields=['id', 'N'], cleaned=False, subsamples=False, filter_func=lambda h: np.ones(len(h) + 1, bool))
+    else:
+        raise AssertionError(kind)
+    return err
+
+
+def after_failure_cases(run, rng, t):
+    """Catalogues X and Y: same simulation name, same superslab numbers (hence the same file names), different directories, different
+    halo counts and rows.  Reference loads of Y first (nothing has failed yet in this case); then, for each valid load of Y, one or
+    two failing loads (on X, sometimes on Y itself) immediately before it.  Verdict only from the valid load."""
+    nslab = int(rng.integers(2, 5))
+    inds = sorted(int(x) for x in rng.choice(np.arange(0, 30), nslab, replace=False)) if t % 2 else list(range(nslab))
+    hpsX = [int(rng.integers(1, 20)) for _ in inds]
+    hpsY = [int(rng.integers(1, 20)) for _ in inds]
+    for j in range(nslab):
+        if hpsY[j] == hpsX[j]:
+            hpsY[j] += 1 + j
+    kw = dict(cleaned_away_prob=0.3, zero_part_prob=0.25, smallratio=True)
+    X = gen_catalog.make_tree(rng, slab_inds=inds, halos_per_slab=hpsX, compression=[None, 'zlib'][t % 2], clean_layout=1, **kw)
+    Y = gen_catalog.make_tree(rng, slab_inds=inds, halos_per_slab=hpsY, compression=[None, 'blsc', 'zlib'][t % 3], clean_layout=[1, 3, 2, 4][t % 4], **kw)
+    try:
+        hi = os.path.join(Y['path'], 'halo_info')
+        fn = lambda s: os.path.join(hi, f'halo_info_{s:03d}.asdf')  # noqa
+        rev = list(reversed(inds))
+        fields_opts = ['DEFAULT_FIELDS', ['N', 'id', 'x_com'], ['id', 'sigmavMid_L2com', 'N'], 'all']
+        valid = [
+            ('zdir', Y['path'], list(inds), None),
+            ('zdir', Y['path'], list(inds), 'p50'),
+            ('list_reversed', [fn(s) for s in rev], rev, ['none_in_one', None, 'p90'][t % 3]),
+            ('single_later_file', fn(inds[-1]), [inds[-1]], [None, 'p50'][t % 2]),
+            ('zdir', Y['path'], list(inds), 'all'),
+        ]
+        plan = []
+        for v, (fname, path, slabs, mkind) in enumerate(valid):
+            cleaned = bool((t + v) % 2)
+            sub = subsample_choice(rng, t + 2 * v + 1)
+            fields = fields_opts[(t + v) % 4]
+            base_kw = dict(cleaned=cleaned, subsamples=sub, fields=fields)
+            masks = None if mkind is None else [mask_for(rng, mkind, Y['slabs'][s], j, len(slabs)) for j, s in enumerate(slabs)]
+            # reference: the unfiltered load of the same files, made before anything has failed
+            run.count('loads')
+            ref, e0 = catoracle.load(path, **base_kw)
+            plan.append((fname, path, slabs, mkind, base_kw, masks, ref, e0))
+        for v, (fname, path, slabs, mkind, base_kw, masks, ref, e0) in enumerate(plan):
+            kinds = [FAIL_KINDS[(2 * (len(plan) * t + v)) % len(FAIL_KINDS)], FAIL_KINDS[(2 * (len(plan) * t + v) + 1 + t % 2 * 2) % len(FAIL_KINDS)]]
+            if v == 0 or v == 1:
+                kinds = kinds[:1] if (t + v) % 2 else kinds  # a single failed call is enough; two stack their leftovers
+            failed = []
+            for i, fk in enumerate(kinds):
+                on_Y = (t + v + i) % 3 == 2
+                T = Y if on_Y else X
+                run.progress(dict(workload='after-failure', case=t, failing=fk, on='Y' if on_Y else 'X'))
+                err = failing_load(run, fk, T)
+                run.count('loads')
+                if err is None:
+                    run.count('expected_rejections_that_did_not_raise')  # not stated by the property: counted only
+                else:
+                    run.count('rejected_calls_before_valid_ones')
+                    run.count('rejected_' + fk)
+                failed.append(dict(kind=fk, on='the same catalogue' if on_Y else 'another catalogue with the same file names', raised=type(err).__name__ if err is not None else None))
+            desc = dict(workload='valid load after failed load(s)', case=t, slab_inds=inds, halos_per_slab=hpsY, halos_per_slab_other_catalogue=hpsX, files=fname, slabs_loaded=slabs, mask=mkind,
+                        kept=None if masks is None else [int(m.sum()) for m in masks], failed_calls_before=failed, **{k_: (repr(v_) if k_ == 'subsamples' else v_) for k_, v_ in base_kw.items()})
+            run.progress(desc)
+            run.ev()
+            run.count('loads')
+            run.count('valid_loads_after_failed_ones')
+            filt = None if masks is None else MaskFilter(masks)
+            got, err = catoracle.load(path, **(dict(base_kw, filter_func=filt) if filt else base_kw))
+            if e0 is not None:
+                continue  # the reference itself did not load: nothing to compare with (the main workload reports such loads)
+            if err is not None:
+                run.violation('after-failed-load-valid-load-fails-' + type(err).__name__, dict(error=f'{type(err).__name__}: {err}'[:300], **desc))
+                continue
+            run.nt(('after-failure', t, fname, mkind, tuple(f['kind'] + '/' + f['on'][:8] for f in failed)))
+            allmask = np.ones(len(ref.halos), bool) if masks is None else np.concatenate(masks)
+            # (1) ground truth per superslab: the rows of each superslab are those of Y's own file
+            bad = False
+            for cn, src, tcol in (('id', 'raw', 'id'), ('N', 'clean' if base_kw['cleaned'] else 'raw', 'N_total' if base_kw['cleaned'] else 'N')):
+                if cn not in got.halos.colnames:
+                    continue
+                want = np.concatenate([np.asarray(Y['slabs'][s][src][tcol])[np.ones(Y['slabs'][s]['H'], bool) if masks is None else masks[j]] for j, s in enumerate(slabs)])
+                a = np.asarray(got.halos[cn])
+                run.count('halo_columns_compared')
+                if a.shape != want.shape or not np.array_equal(a.astype(np.int64), want.astype(np.int64)):
+                    w = dict(column=cn, rows=len(a), expected_rows=len(want))
+                    if a.shape == want.shape:
+                        r = int(np.nonzero(a.astype(np.int64) != want.astype(np.int64))[0][0])
+                        offs = np.cumsum([Y['slabs'][s]['H'] if masks is None else int(masks[j].sum()) for j, s in enumerate(slabs)])
+                        w.update(first_bad_row=r, in_superslab=slabs[int(np.searchsorted(offs, r, side='right'))], got=int(a[r]), expected=int(want[r]))
+                        sX = X['slabs'][w['in_superslab']]
+                        w['value_is_in_the_other_catalogue_same_superslab'] = bool(np.isin(a[r], np.asarray(sX[src][tcol])))
+                    bad = run.violation('valid-load-after-failed-load-differs', dict(w, check='ground truth of the superslab files', **desc)) or True
+                    break
+            if bad:
+                continue
+            # (2) every column: the (masked) unfiltered load of the same files made before the failure
+            if len(got.halos) != int(allmask.sum()):
+                run.violation('valid-load-after-failed-load-differs', dict(rows=len(got.halos), expected=int(allmask.sum()), check='row count', **desc))
+                continue
+            if compare_halos(run, got.halos, {cn: v_[allmask] for cn, v_ in table_rows(ref).items()}, dict(desc, check='same files loaded before the failure'), 'valid-load-after-failed-load-differs'):
+                continue
+            # (3) particle slices
+            AB = resolved_AB(base_kw['subsamples'])
+            if AB:
+                catoracle.check_subsamples(run, got, Y, slabs, base_kw['cleaned'], AB, masks=masks, desc=dict(desc, check='particle slices'), key_prefix='after-failed-load-subsample')
+            if run.too_many():
+                return
+    finally:
+        shutil.rmtree(X['root'], ignore_errors=True)
+        shutil.rmtree(Y['root'], ignore_errors=True)
+
+
+
 def check(run):
     catoracle.fast_io()
     catoracle.install_contracts()
@@ -464,6 +650,11 @@ def check(run):
     for k in range(3 if run.quick else 30):
         lc_cases(run, rng, k)
     big_superslab_case(run, run.rng(4))
+    rng11 = run.rng(11)
+    for t in range(6 if run.quick else 40):
+        after_failure_cases(run, rng11, t)
+        if run.too_many():
+            break
     catoracle.report_contracts(run)
     run.sample(dict(files='list_reversed', mask='none_in_one', cleaned=True, subsamples="{'A': True, 'pid': True}", fields=['N', 'id', 'x_com']))
     for kind in ('all', 'none'):
